@@ -385,44 +385,40 @@ impl<'p> Sinker<'p> for DropIt {
     }
 }
 
-/// Ordering-specific operations (`at_least_times` only exists for unordered patterns).
-pub trait OrdX: Ordering + Copy + 'static {
-    fn at_least<'p, F: UF>(
-        q: Quantify<'p, F, Self>,
-        n: usize,
-    ) -> QuantifiedResponse<'p, F, Self, AtLeast>;
-    fn at_least_rv<'p, F: UF>(
+/// Ordering-specific operations (`at_least_times` only exists for unordered patterns). The
+/// finished clause goes straight to the sink, so that the harness does not name the builder's
+/// result type (a change of the type-state must show up in the checks, not break the harness).
+trait OrdX: Ordering + Copy + 'static {
+    fn at_least<'p, F: UF, S: Sinker<'p>>(q: Quantify<'p, F, Self>, n: usize, sink: &mut S);
+    fn at_least_rv<'p, F: UF, S: Sinker<'p>>(
         q: QuantifyReturnValue<'p, F, u32, Self>,
         n: usize,
-    ) -> QuantifiedResponse<'p, F, Self, AtLeast>;
+        sink: &mut S,
+    );
 }
 
 impl OrdX for InAnyOrder {
-    fn at_least<'p, F: UF>(
-        q: Quantify<'p, F, Self>,
-        n: usize,
-    ) -> QuantifiedResponse<'p, F, Self, AtLeast> {
-        q.at_least_times(n)
+    fn at_least<'p, F: UF, S: Sinker<'p>>(q: Quantify<'p, F, Self>, n: usize, sink: &mut S) {
+        sink.take(q.at_least_times(n))
     }
-    fn at_least_rv<'p, F: UF>(
+    fn at_least_rv<'p, F: UF, S: Sinker<'p>>(
         q: QuantifyReturnValue<'p, F, u32, Self>,
         n: usize,
-    ) -> QuantifiedResponse<'p, F, Self, AtLeast> {
-        q.at_least_times(n)
+        sink: &mut S,
+    ) {
+        sink.take(q.at_least_times(n))
     }
 }
 
 impl OrdX for InOrder {
-    fn at_least<'p, F: UF>(
-        _: Quantify<'p, F, Self>,
-        _: usize,
-    ) -> QuantifiedResponse<'p, F, Self, AtLeast> {
+    fn at_least<'p, F: UF, S: Sinker<'p>>(_: Quantify<'p, F, Self>, _: usize, _: &mut S) {
         panic!("harness: at_least_times is not available on ordered patterns")
     }
-    fn at_least_rv<'p, F: UF>(
+    fn at_least_rv<'p, F: UF, S: Sinker<'p>>(
         _: QuantifyReturnValue<'p, F, u32, Self>,
         _: usize,
-    ) -> QuantifiedResponse<'p, F, Self, AtLeast> {
+        _: &mut S,
+    ) {
         panic!("harness: at_least_times is not available on ordered patterns")
     }
 }
@@ -497,7 +493,7 @@ fn quantify<'p, F: UF, O: OrdX, S: Sinker<'p>>(
         Quant::N(n) => after_exact(q.n_times(n), rest, sink),
         Quant::AtLeast(n) => {
             assert!(rest.is_empty(), "harness: at-least segment must be last");
-            sink.take(O::at_least(q, n))
+            O::at_least(q, n, sink)
         }
     }
 }
@@ -546,7 +542,7 @@ fn chain_first<'p, F: UF, O: OrdX, S: Sinker<'p>>(
                 Quant::N(n) => after_exact(q.n_times(n), rest, sink),
                 Quant::AtLeast(n) => {
                     assert!(rest.is_empty());
-                    sink.take(O::at_least_rv(q, n))
+                    O::at_least_rv(q, n, sink)
                 }
             }
         }
